@@ -193,9 +193,12 @@ _TIER = None
 _DEADLINE = None
 
 
-def _init_worker(modname, tier, deadline):
+def _init_worker(modname, tier, deadline, silence=False):
     global _PROP, _TIER, _DEADLINE
     import importlib
+
+    if silence:  # the code under test prints debugging output (e.g. printStack) to stdout
+        sys.stdout = open(os.devnull, "w")
 
     _PROP = importlib.import_module(modname).PROP
     _TIER = tier
@@ -258,7 +261,7 @@ def run_check(modname, tier, seed, quiet=False):
             total.merge(_run_one(s))
     else:
         ctx = multiprocessing.get_context("fork")
-        with ctx.Pool(nproc, initializer=_init_worker, initargs=(modname, tier, deadline)) as pool:
+        with ctx.Pool(nproc, initializer=_init_worker, initargs=(modname, tier, deadline, True)) as pool:
             for acc in pool.imap_unordered(_run_one, shards, chunksize=1):
                 total.merge(acc)
     wall = time.time() - t0
